@@ -353,7 +353,11 @@ class C15(Check):
             "combinations) are judged at ties.  Infinite reference values must be reproduced exactly.  A printer that "
             "throws declines; text using an identifier that is neither a bound symbol nor an ISO C99 <math.h> name is "
             "declined (EulerGamma, gamma, f, ...); a batch that gcc rejects is bisected and the rejected text is a "
-            "violation.  Known findings are excluded narrowly only while their tag is active (skipped['known:*']).  "
+            "violation.  Known findings are excluded by construction only while their tag is active (skipped['known:*']): "
+            "KF-C15-01 double-precision texts with a division / overflow among C-integer-typed operands (type inference over "
+            "the tree: Integer, relationals, logic, Piecewise / UnevaluatedExpr / Add / Mul of those), KF-C15-02 texts with "
+            "an integer literal >= 2^63, KF-C15-03 trees with cot/csc/sec/coth/csch/sech, UnevaluatedExpr or Contains in a "
+            "position where StrPrinter parenthesizes by precedence, KF-C15-04 Contains(., (-oo, oo)).  "
             "Non-trivial: expression whose tree has a Rational, a negative or rational power, or a Piecewise; distinct by "
             "recipe.  classes: judged:<printer> = judged (text, vector) pairs, node:<T> = judged expressions containing T."
             % BATCH)
@@ -362,7 +366,7 @@ class C15(Check):
                    "gcc -O0 -std=gnu99 -fno-builtin implements C arithmetic on IEEE doubles / floats",
                    "a printer that throws declines; emitted code that uses an identifier which is neither a bound symbol "
                    "nor an ISO C99 <math.h> name is the user's to complete and is declined"]
-    tiers = {"quick": {"examples": 64, "shrink_calls": 24}, "thorough": {"examples": 4800, "shrink_calls": 80}}
+    tiers = {"quick": {"examples": 64, "shrink_calls": 24}, "thorough": {"examples": 3200, "shrink_calls": 60}}
     case_timeout = 900
     timeout = 120.0
 
